@@ -34,7 +34,11 @@ def gen_case(r, info=None):
             ev.append(("up", n, r.below(256), 0xA2, [base, size] + [r.below(256) for _ in range(size // 8 + 2)]))
         elif k < 80: ev.append(("up", n, r.below(256), 0xAC, [r.below(256) for _ in range(5)]))
         elif k < 86: ev.append(("up", n, 0, 0x8E, [r.choice([1, 0])]))            # stall / unstall
-        elif k < 93: ev.append(("send", n, r.choice([0x16, 0x19, 0x20, 0x05]), [r.below(256)]))   # budget pressure
+        elif k < 90: ev.append(("send", n, r.choice([0x16, 0x19, 0x20, 0x05]), [r.below(256)]))   # budget pressure
+        elif k < 93:
+            # the host asks for a range (with an action id, as the high-level functions do); the node's next multiple report answers it
+            ev.append(("send", n, 0x20, [0, 16], r.choice([0, 1, 77, 4711])))
+            ev.append(("up", n, r.below(256), 0xA2, [8 * r.below(4), 16, r.below(256), r.below(256)]))
         elif k < 96: ev.append(("up", n, r.below(256), r.choice([0x93, 0x95, 0x84]), [1, 65, 1, 66]))
         else: ev.append(("up", n, r.below(256), r.choice([0xA3, 0xA7, 0xA9]), [r.below(256) for _ in range(4)]))
     # address reuse: a board is reported lost and another configured board (other SecAck setting or not) logs in at the same
@@ -82,7 +86,7 @@ def script_of(cid, ev):
         elif e[0] == "time": L.append("time %d" % e[1])
         elif e[0] == "must_drain": L.append("flush")
         else:
-            a = list(e[1]) + [0, 0, 0]; L.append("send %d %d %d %d %s" % (a[0], a[1], a[2], e[2], hexs(e[3])))
+            a = list(e[1]) + [0, 0, 0]; L.append("send %d %d %d %d %s" % (a[0], a[1], a[2], e[2], hexs(e[3])) + (" %d" % e[4] if len(e) > 4 else ""))
         L.append("mark %d" % i)
     L += ["flush", "mark end"]
     return L
